@@ -8,6 +8,12 @@
 //       entries visited by begin()/++/erase_advance sweeps),
 //   (c) destroy the tree in every state under ASan/LSan.
 //
+// Every public way of doing the stated operations is part of the workload: insertion through insert(pt,v) and
+// through emplace(pt) (zero value arguments: the only form that instantiates; adds (pt, ValueType())), erasure through
+// erase(pt,v), through erase_advance on a sweeping iterator and through erase_advance on the iterator that insert()
+// returned; iteration with ++it, with `it++;`, with the value of `*it++`, with range-for, and with both
+// `it != end` and `!(it == end())` loop tests.  The model is the same multiset for all of them.
+//
 // Parts (selected with --arg only=<part>):
 //   exh      exhaustive insertion sequences (with repetition) from the 3x3 grid x all erase orders,
 //            all erase_advance subset sweeps, destruction after every erase-order prefix
@@ -58,6 +64,7 @@ static const char* NK_NAME[] = {"leaf", "only-before", "only-after", "both", "ab
 static uint64_t cc_erase[2][2][NK_N][2][2];
 // insert: [D-2][where: 0 root,1 before,2 after][rel: 0 notie,1 tie-on-split,2 duplicate-point]
 static uint64_t cc_insert[2][3][3];
+static uint64_t cc_emplace[2];
 static map<string, uint64_t> cc_misc;  // low-frequency classes
 static inline void misc(const char* k) {
   // called at most a few times per state; pointer-keyed cache keeps it cheap
@@ -82,6 +89,8 @@ static void flush_classes() {
     for (int w = 0; w < 3; w++)
       for (int r = 0; r < 3; r++)
         if (cc_insert[d][w][r]) C->cls(fmt("insert:%dd:%s:%s", d + 2, wh[w], rel[r]), cc_insert[d][w][r]);
+  for (int d = 0; d < 2; d++)
+    if (cc_emplace[d]) C->cls(fmt("insert:%dd:via-emplace", d + 2), cc_emplace[d]);
   for (auto& kv : cc_misc)
     if (kv.second) C->cls(kv.first, kv.second);
 }
@@ -113,7 +122,8 @@ struct Ent {
 };
 
 struct OpRec {
-  char kind;  // 'i' insert, 'e' erase, 'a' erase_advance, 's' sweep start, 'n' ++it
+  char kind;  // 'i' insert, 'm' emplace, 'x' insert + erase_advance on the returned iterator, 'e' erase, 'a' erase_advance,
+              // 's' sweep start, 'n' ++it, 'p' it++ (statement), 'q' *it++ (value used)
   Ent e;
   int ret;  // erase: returned value (0/1), -1 n/a
 };
@@ -248,6 +258,10 @@ struct Sim {
       const OpRec& o = log[i];
       switch (o.kind) {
         case 'i': s += " insert" + estr(o.e); break;
+        case 'm': s += " emplace" + pstr(o.e.c); break;
+        case 'x': s += " [it=insert" + estr(o.e) + "; erase_advance(it)]"; break;
+        case 'p': s += " it++@" + estr(o.e); break;
+        case 'q': s += " *it++@" + estr(o.e); break;
         case 'e': s += " erase" + estr(o.e) + (o.ret < 0 ? "" : o.ret ? "->true" : "->false"); break;
         case 's': s += " [it=begin()]"; break;
         case 'n': s += " ++it@" + estr(o.e); break;
@@ -395,7 +409,9 @@ struct Sim {
   }
 
   // ---- operations ---------------------------------------------------------------------------
-  void op_insert(const int64_t* c, int64_t v, Level lv) {
+  // use_emplace: t->emplace(pt) instead of t->insert(pt, v); only possible for v == 0 (value-initialised value)
+  void op_insert(const int64_t* c, int64_t v, Level lv, bool use_emplace = false) {
+    if (v != 0) use_emplace = false;
     Ent e = entc(c, v);
     if (lv >= L_WALK) {
       // classify where it will land
@@ -425,17 +441,49 @@ struct Sim {
     C->crumb_n("insert", D, (uint64_t)c[0], (uint64_t)c[1], D > 2 ? (uint64_t)c[2] : 0, (uint64_t)v, log.size());
     g_eval++;
     used = true;
+    char kind = use_emplace ? 'm' : 'i';
+    Ent got;
     try {
-      t->insert(PT<D>::mk(c), v);
+      // the returned iterator is positioned on the new entry
+      if (use_emplace) {
+        auto it = t->emplace(PT<D>::mk(c));
+        got = ent(it->first, it->second);
+      } else {
+        auto it = t->insert(PT<D>::mk(c), v);
+        got = ent((*it).first, (*it).second);
+      }
     } catch (const std::exception& ex) {
-      log.push_back({'i', e, -1});
-      fail("insert:unexpected-exception", string("insert threw ") + ex.what());
+      log.push_back({kind, e, -1});
+      fail(use_emplace ? "emplace:unexpected-exception" : "insert:unexpected-exception", string("threw ") + ex.what());
       return;
     }
     model.push_back(e);
-    log.push_back({'i', e, -1});
-    if (t->size() != model.size()) fail("size:mismatch:after-insert", fmt("size()=%zu, model has %zu", t->size(), model.size()));
-    if (lv >= L_WALK) walk("insert");
+    log.push_back({kind, e, -1});
+    if (use_emplace) cc_emplace[D - 2]++;
+    if (!(got == e))
+      fail(use_emplace ? "emplace:returned-iterator-wrong-entry" : "insert:returned-iterator-wrong-entry",
+          "the iterator returned for the new entry " + estr(e) + " dereferences to " + estr(got));
+    if (t->size() != model.size())
+      fail(use_emplace ? "size:mismatch:after-emplace" : "size:mismatch:after-insert", fmt("size()=%zu, model has %zu", t->size(), model.size()));
+    if (lv >= L_WALK) walk(use_emplace ? "emplace" : "insert");
+  }
+
+  // it = insert(pt, v); erase_advance(it): erasing through the iterator that insert returned removes exactly the new
+  // entry again (it is a leaf), leaves the iterator at end(), and the tree holds what it held before
+  void op_insert_then_erase_via_iterator(const int64_t* c, int64_t v) {
+    Ent e = entc(c, v);
+    C->crumb_n("insert+erase_advance", D, (uint64_t)c[0], (uint64_t)c[1], D > 2 ? (uint64_t)c[2] : 0, (uint64_t)v, log.size());
+    g_eval++;
+    used = true;
+    log.push_back({'x', e, -1});
+    auto it = t->insert(PT<D>::mk(c), v);
+    if (t->size() != model.size() + 1) fail("size:mismatch:after-insert", fmt("size()=%zu, model has %zu", t->size(), model.size() + 1));
+    t->erase_advance(it);
+    if (!(it == t->end()))
+      fail("erase_advance:returned-iterator-not-at-end", "after erase_advance on the iterator returned by insert (a leaf) the iterator must equal end()");
+    if (t->size() != model.size()) fail("size:mismatch:after-erase_advance", fmt("size()=%zu, model has %zu", t->size(), model.size()));
+    walk("erase_advance");
+    misc(D == 2 ? "erase:2d:via-iterator-returned-by-insert" : "erase:3d:via-iterator-returned-by-insert");
   }
 
   bool model_remove(const Ent& e) {
@@ -475,15 +523,20 @@ struct Sim {
   }
 
   // begin()/++/erase_advance sweep; decide(i, entry) says whether the i-th visited entry is erased.
+  // incform: how the iterator moves past an entry that is kept and how the loop tests for the end:
+  //   0: ++it, `it != end` (end cached)   1: it++; (statement), `!(it == t->end())`
+  //   2: the value of `*it++` is used (must be the entry the iterator was on), `it != t->end()`
   template <typename F>
-  void op_sweep(F decide, Level lv) {
+  void op_sweep(F decide, Level lv, int incform = 0) {
     vector<Ent> pre = model, visited;
     size_t guard = pre.size() + t->node_count + 8, i = 0, erased = 0;
     C->crumb_n("sweep-begin", D, log.size());
     log.push_back({'s', Ent{{0, 0, 0}, 0}, -1});
     auto it = t->begin();
     auto end = t->end();
-    while (it != end) {
+    for (;;) {
+      bool at_end = incform == 0 ? !(it != end) : incform == 1 ? (it == t->end()) : !(it != t->end());
+      if (at_end) break;
       if (i > guard) {
         fail("erase_advance:sweep-does-not-terminate", fmt("visited %zu entries of a tree that held %zu", i, pre.size()));
         break;
@@ -506,12 +559,26 @@ struct Sim {
         if (lv >= L_WALK) walk("erase_advance");
         if (failed) break;
       } else {
-        C->crumb_n("++it", D, (uint64_t)e.c[0], (uint64_t)e.c[1], (uint64_t)e.c[2], (uint64_t)e.v, log.size());
-        ++it;
-        log.push_back({'n', e, -1});
+        C->crumb_n(incform == 0 ? "++it" : incform == 1 ? "it++" : "*it++", D, (uint64_t)e.c[0], (uint64_t)e.c[1], (uint64_t)e.c[2], (uint64_t)e.v, log.size());
+        if (incform == 0) {
+          ++it;
+          log.push_back({'n', e, -1});
+        } else if (incform == 1) {
+          it++;
+          log.push_back({'p', e, -1});
+        } else {
+          auto pr = *it++;
+          Ent e2 = ent(pr.first, pr.second);
+          log.push_back({'q', e, -1});
+          if (!(e2 == e)) {
+            fail("iterate:post-increment-returns-wrong-entry", "`*it++` on an iterator positioned on " + estr(e) + " yielded " + estr(e2));
+            break;
+          }
+        }
       }
       i++;
     }
+    misc(incform == 0 ? "sweep-form:pre-increment" : incform == 1 ? "sweep-form:post-increment-statement" : "sweep-form:post-increment-value");
     if (!failed) {
       small_sort(pre);
       small_sort(visited);
@@ -524,24 +591,72 @@ struct Sim {
   }
 
   // ---- observations -------------------------------------------------------------------------
-  void check_iteration() {
+  // form 0: for (it = begin(); it != end; ++it)      form 1: range-for
+  // form 2: while (!(it == end())) use(*it++)         form 3: while (it != end) { use(*it); it++; }
+  void check_iteration_form(int form) {
+    static const char* KEY[] = {"iterate:multiset-mismatch", "iterate:range-for:multiset-mismatch",
+        "iterate:post-increment-value:multiset-mismatch", "iterate:post-increment-statement:multiset-mismatch"};
+    static const char* CLS[] = {"iterate-form:pre-increment", "iterate-form:range-for", "iterate-form:post-increment-value", "iterate-form:post-increment-statement"};
     g_eval++;
     scratch.clear();
     size_t guard = model.size() + t->node_count + 8, n = 0;
-    C->crumb_n("iterate", D, log.size());
-    auto end = t->end();
-    for (auto it = t->begin(); it != end; ++it) {
-      if (++n > guard) {
-        fail("iterate:does-not-terminate", fmt("more than %zu entries yielded", guard));
-        return;
+    C->crumb_n("iterate", D, log.size(), (uint64_t)form);
+    bool runaway = false;
+    switch (form) {
+      case 0: {
+        auto end = t->end();
+        for (auto it = t->begin(); it != end; ++it) {
+          if (++n > guard) { runaway = true; break; }
+          scratch.push_back(ent(it->first, it->second));
+        }
+        break;
       }
-      scratch.push_back(ent(it->first, it->second));
+      case 1: {
+        for (const auto& pr : *t) {
+          if (++n > guard) { runaway = true; break; }
+          scratch.push_back(ent(pr.first, pr.second));
+        }
+        break;
+      }
+      case 2: {
+        auto it = t->begin();
+        while (!(it == t->end())) {
+          if (++n > guard) { runaway = true; break; }
+          auto pr = *it++;
+          scratch.push_back(ent(pr.first, pr.second));
+        }
+        break;
+      }
+      default: {
+        auto it = t->begin();
+        auto end = t->end();
+        while (it != end) {
+          if (++n > guard) { runaway = true; break; }
+          scratch.push_back(ent((*it).first, (*it).second));
+          it++;
+        }
+        break;
+      }
+    }
+    if (runaway) {
+      fail("iterate:does-not-terminate", fmt("more than %zu entries yielded (iteration form %d)", guard, form));
+      return;
     }
     scratch2 = model;
     small_sort(scratch);
     small_sort(scratch2);
-    if (!(scratch == scratch2)) fail("iterate:multiset-mismatch", "begin()..end() yields " + mstr(scratch));
+    if (!(scratch == scratch2)) fail(KEY[form], string(CLS[form]) + " yields " + mstr(scratch));
     if (t->size() != model.size()) fail("size:mismatch", fmt("size()=%zu, model has %zu", t->size(), model.size()));
+    misc(CLS[form]);
+  }
+  // all four forms, or one of them in rotation
+  void check_iteration(bool all_forms = false) {
+    static unsigned rot = 0;
+    if (all_forms) {
+      for (int f = 0; f < 4; f++) check_iteration_form(f);
+    } else {
+      check_iteration_form((int)(rot++ & 3));
+    }
   }
 
   void check_point(const int64_t* c) {
@@ -688,7 +803,7 @@ struct Sim {
     }
     if (lv < L_LOOKUP) return;
     failed = false;
-    check_iteration();
+    check_iteration(lv >= L_POINTS);
     if (lv >= L_POINTS && qpoints) {
       for (auto& q : *qpoints) check_point(q.c);
     } else {
@@ -768,7 +883,7 @@ static vector<Box> all_boxes(int D, int side, bool degenerate) {
 // part exh: exhaustive histories on the 3x3 grid
 
 struct ExhStats {
-  uint64_t sequences = 0, histories = 0, erase_states_checked = 0, full_sweeps = 0, sweep_masks = 0, destroy_states = 0, orders_skipped = 0;
+  uint64_t sequences = 0, histories = 0, erase_states_checked = 0, full_sweeps = 0, sweep_masks = 0, destroy_states = 0, orders_skipped = 0, insert_phase_runs = 0;
 };
 static ExhStats XS;
 
@@ -784,29 +899,38 @@ static inline void pt_of(int idx, int64_t* c) {
 static Sim<2>* XSIM;  // one simulator reused for all exhaustive histories (reset() destroys + recreates the tree)
 
 // Builds the tree for `pts` with light checks (its states were fully checked by exh_insert_phase).
-static void build(Sim<2>& s, const int* pts, int k, bool constv, Level lv) {
+// emask bit i: insertion i goes through emplace(pt) (possible where the value is 0: every insertion of the constant
+// scheme, the first insertion of the distinct scheme)
+static void build(Sim<2>& s, const int* pts, int k, bool constv, Level lv, unsigned emask) {
   for (int i = 0; i < k && !s.failed; i++) {
     int64_t c[3];
     pt_of(pts[i], c);
-    s.op_insert(c, constv ? 7 : i, lv);
+    s.op_insert(c, constv ? 0 : i, lv, ((emask >> i) & 1) != 0);
   }
 }
 
 // (1) the insertion itself: walk after every insert, observation sweep on the state after the last insert
 // (the states after the earlier inserts are the final states of the shorter sequences, enumerated too)
+// every choice of insert/emplace for the insertions whose value is 0 is enumerated here (2^k for the constant scheme,
+// 2 for the distinct scheme)
 static void exh_insert_phase(const int* pts, int k, bool constv, Level lv) {
   Sim<2>& s = *XSIM;
-  s.reset("insert-phase", pts, k, constv);
   if (k == 0) {
+    s.reset("insert-phase", pts, k, constv);
     s.walk("construct");
     s.check_state(L_FULL);
     return;
   }
-  for (int i = 0; i < k && !s.failed; i++) {
-    int64_t c[3];
-    pt_of(pts[i], c);
-    s.op_insert(c, constv ? 7 : i, L_WALK);
-    if (i == k - 1 || s.failed) s.check_state(lv);
+  unsigned nmask = constv ? (1u << k) : 2u;
+  for (unsigned emask = 0; emask < nmask; emask++) {
+    s.reset("insert-phase", pts, k, constv);
+    for (int i = 0; i < k && !s.failed; i++) {
+      int64_t c[3];
+      pt_of(pts[i], c);
+      s.op_insert(c, constv ? 0 : i, L_WALK, ((emask >> i) & 1) != 0);
+      if (i == k - 1 || s.failed) s.check_state(emask == 0 ? lv : (lv > L_POINTS ? L_POINTS : lv));
+    }
+    XS.insert_phase_runs++;
   }
 }
 
@@ -834,7 +958,7 @@ static void exh_erase_orders(const int* pts, int k, bool constv, uint64_t seqcod
     first = false;
     memcpy(prev, perm, sizeof(perm));
     s.reset("all-erase-orders", pts, k, constv);
-    build(s, pts, k, constv, L_LIGHT);
+    build(s, pts, k, constv, L_LIGHT, (unsigned)(seqcode * 7 + permidx));
     for (int j = 0; j < k && !s.failed; j++) {
       int64_t c[3];
       pt_of(pts[perm[j]], c);
@@ -851,7 +975,7 @@ static void exh_erase_orders(const int* pts, int k, bool constv, uint64_t seqcod
           XS.full_sweeps++;
         }
       }
-      s.op_erase(c, constv ? 7 : perm[j], lv == L_LIGHT ? L_LIGHT : L_WALK);
+      s.op_erase(c, constv ? 0 : perm[j], lv == L_LIGHT ? L_LIGHT : L_WALK);
       s.check_state(lv);
     }
     XS.histories++;
@@ -864,7 +988,7 @@ static void exh_erase_orders(const int* pts, int k, bool constv, uint64_t seqcod
 static void exh_destroy_rec(const int* pts, int k, int* pre, bool* usedm, int d) {
   Sim<2>& s = *XSIM;
   s.reset("destroy-after-erase-prefix", pts, k, false);
-  build(s, pts, k, false, L_LIGHT);
+  build(s, pts, k, false, L_LIGHT, (unsigned)(XS.destroy_states & 1));
   for (int j = 0; j < d && !s.failed; j++) {
     int64_t c[3];
     pt_of(pts[pre[j]], c);
@@ -891,16 +1015,20 @@ static void exh_destroy_states(const int* pts, int k) {
 // (4) begin()/++/erase_advance sweeps erasing every subset of visit positions
 static void exh_sweeps(const int* pts, int k, bool constv, uint64_t seqcode, unsigned box_every) {
   Sim<2>& s = *XSIM;
+  // <=4 points: every visit mask with each of the three increment forms; otherwise one form per mask in rotation
   for (unsigned mask = 0; mask < (1u << k); mask++) {
-    s.reset("erase_advance-sweep", pts, k, constv, mask);
-    build(s, pts, k, constv, L_LIGHT);
-    if (s.failed) continue;
-    s.op_sweep([&](size_t i, const Ent&) { return ((mask >> i) & 1) != 0; }, L_WALK);
-    Level lv = L_LOOKUP;
-    if (box_every == 1 || ((mask * 2654435761ULL + seqcode * 40503ULL + C->seed * 7919ULL) % box_every) == 0) lv = L_FULL;
-    if (!s.failed) s.walk("erase_advance");
-    s.check_state(lv);
-    XS.sweep_masks++;
+    for (int form = 0; form < 3; form++) {
+      if (k > 4 && form != (int)((mask + seqcode) % 3)) continue;
+      s.reset("erase_advance-sweep", pts, k, constv, mask);
+      build(s, pts, k, constv, L_LIGHT, (unsigned)(seqcode * 5 + mask + (unsigned)form));
+      if (s.failed) continue;
+      s.op_sweep([&](size_t i, const Ent&) { return ((mask >> i) & 1) != 0; }, L_WALK, form);
+      Level lv = L_LOOKUP;
+      if (form == 0 && (box_every == 1 || ((mask * 2654435761ULL + seqcode * 40503ULL + C->seed * 7919ULL) % box_every) == 0)) lv = L_FULL;
+      if (!s.failed) s.walk("erase_advance");
+      s.check_state(lv);
+      XS.sweep_masks++;
+    }
   }
 }
 
@@ -963,6 +1091,7 @@ static void part_exh() {
   C->count("exh_erase_advance_sweeps", XS.sweep_masks);
   C->count("exh_destroy_after_prefix_states", XS.destroy_states);
   C->count("exh_erase_orders_not_run_by_sampling", XS.orders_skipped);
+  C->count("exh_insert_phase_runs", XS.insert_phase_runs);
   if (C->shard == 0) C->count("exh_max_sequence_length", (uint64_t)K);
 }
 
@@ -1025,7 +1154,7 @@ static void random_history(uint64_t gidx, int side, int nops) {
           case 3: return ((e.c[0] + e.c[1] + e.c[2]) % 2) != 0;
           default: return sr.below(den + 1) != 0 ? false : true;
         }
-      }, L_WALK);
+      }, L_WALK, (int)r.below(3));
       if (!s.failed) s.walk("erase_advance");
       RS.sweeps++;
       opname = "erase_advance";
@@ -1041,7 +1170,14 @@ static void random_history(uint64_t gidx, int side, int nops) {
       } else {
         for (int d = 0; d < D; d++) c[d] = (int64_t)r.below(side);
       }
-      s.op_insert(c, (int64_t)r.below(vrange), L_WALK);
+      int64_t v = (int64_t)r.below(vrange);
+      bool via_emplace = r.chance(1, 2);  // honoured only when v == 0
+      if (r.chance(1, 12)) {
+        s.op_insert_then_erase_via_iterator(c, v);
+        opname = "erase_advance";
+      } else {
+        s.op_insert(c, v, L_WALK, via_emplace);
+      }
     } else if (r.chance(1, 6)) {
       // erase something that is (probably) not there: random point, random value
       int64_t c[3] = {0, 0, 0};
@@ -1284,7 +1420,7 @@ int main(int argc, char** argv) {
   flush_classes();
   c.evaluations += g_eval;
   if (want("exh"))
-    c.sample("exh: every insertion sequence (with repetition) of <=K points of {0,1,2}^2, values distinct (index) and constant (7); "
+    c.sample("exh: every insertion sequence (with repetition) of <=K points of {0,1,2}^2, values distinct (index; the first through insert or emplace) and constant 0 (each through insert(pt,0) or emplace(pt)); "
              "then every erase order, every erase_advance subset sweep, destruction after every erase-order prefix");
   if (want("destroy")) c.sample("destroy: { KDTree<Vector2<int64_t>,int64_t> t; } in a forked child");
   return c.finish();
